@@ -13,6 +13,8 @@
 //          r <id>               interval_tree::remove(node id)
 //          q <lb> <ub>          for_overlaps(fn, lb, ub)        prints "o <ids in callback order>"
 //          p <x>                for_overlaps(fn, x)             (one-argument form)
+//          qt <kind> <lb> <ub>  for_overlaps(fn, (K)lb, (K)ub) with arguments of C++ type K = kind: u32 unsigned, usz size_t, i16 short,
+//          pt <kind> <x>        i32 int, f32 float (double trees only), mix (size_t, int); values non-negative and exact in both types
 //          w <id> <hi>          upper(node) := hi, nothing re-aggregated (tree becomes "dirty": annotations stale)
 //          a <id>               _rbtree.aggregate_path(node)    (public rbtree API; early stop observable when dirty)
 //          A                    aggregate_node on every node, children first (tree clean again)
@@ -29,6 +31,8 @@
 #include <vector>
 #include <algorithm>
 #include <cinttypes>
+#include <limits>
+#include <type_traits>
 #include "vharness.hpp"
 #include <frg/interval_tree.hpp>
 
@@ -52,6 +56,13 @@ template<> struct Codec<int64_t> {
 	static std::string str(int64_t v) { return std::to_string((long long)v); }
 	static bool valid(int64_t) { return true; }
 	static int64_t from_int(long long e) { return e - 4; }
+};
+template<> struct Codec<int32_t> {
+	static const char *name() { return "i32"; }
+	static int32_t parse(const std::string &s) { return (int32_t)strtoll(s.c_str(), nullptr, 10); }
+	static std::string str(int32_t v) { return std::to_string((long long)v); }
+	static bool valid(int32_t) { return true; }
+	static int32_t from_int(long long e) { return (int32_t)(e - 4); }
 };
 template<> struct Codec<double> {
 	static const char *name() { return "f64"; }
@@ -199,7 +210,10 @@ template<class E> struct Har {
 		it._rbtree.aggregate_node(nd);
 	}
 
-	static void query(IT &it, Node *pool, int P, E lb, E ub, bool one_arg, bool dirty) {
+	// ql/qu: the arguments as they are PASSED to for_overlaps (their C++ type may differ from the endpoint type: qt / pt ops);
+	// lb/ub: the same mathematical values as endpoints, used by the oracle.  Returns the callback sequence.
+	template<class QL, class QU>
+	static std::vector<int> query(IT &it, Node *pool, int P, QL ql, QU qu, E lb, E ub, bool one_arg, bool dirty, bool silent = false) {
 		std::vector<int> seen;
 		size_t calls = 0;
 		bool nonmember = false;
@@ -208,13 +222,14 @@ template<class E> struct Har {
 			if(!nd || nd < pool || nd >= pool + P) { nonmember = true; return; }
 			seen.push_back(nd->id);
 		};
-		if(one_arg) it.for_overlaps(fn, lb);
-		else it.for_overlaps(fn, lb, ub);
+		if(one_arg) it.for_overlaps(fn, ql);
+		else it.for_overlaps(fn, ql, qu);
+		if(silent) return seen;
 		std::string s = "o";
 		for(int i : seen) s += " " + std::to_string(i);
 		emit(s);
 		if(nonmember) vh::oracle("iv-spurious", "callback invoked with a pointer that is not a pool node");
-		if(dirty || lb > ub) return;      // outside the property's quantifier (see NOTES.md); compared with the model only
+		if(dirty || lb > ub) return seen;      // outside the property's quantifier (see NOTES.md); compared with the model only
 		std::vector<int> cnt(P, 0);
 		for(int i : seen) cnt[i]++;
 		for(int i = 0; i < P; i++) {
@@ -227,6 +242,56 @@ template<class E> struct Har {
 			if(want && cnt[i] > 1) vh::oracle("iv-twice", "query [%s,%s]: callback invoked %d times for interval %d = [%s,%s]",
 				S(lb).c_str(), S(ub).c_str(), cnt[i], i, S(pool[i].lo).c_str(), S(pool[i].hi).c_str());
 		}
+		return seen;
+	}
+
+	// ---- queries whose arguments have another arithmetic type than the endpoint type P (qt <kind> lb ub / pt <kind> x):
+	// the same mathematical value, non-negative and exactly representable in both types.  Modelling assumption, checked here:
+	// the query is converted to P ONCE (for_overlaps takes P lb, P ub), so the answer equals the P-typed query's.
+	template<class Q> static bool conv(const std::string &s, Q *out, E *as_e) {
+		if constexpr(std::is_integral_v<Q>) {
+			if(s.empty() || s.size() > 18) return false;
+			for(char ch : s) if(ch < '0' || ch > '9') return false;
+			unsigned long long v = strtoull(s.c_str(), nullptr, 10);
+			unsigned long long qmax = std::min<unsigned long long>((unsigned long long)std::numeric_limits<Q>::max(), 1ULL << 62);
+			unsigned long long emax = std::is_floating_point_v<E> ? (1ULL << 53)
+				: std::min<unsigned long long>((unsigned long long)std::numeric_limits<E>::max(), 1ULL << 62);
+			if(v > qmax || v > emax) return false;
+			*out = (Q)v; *as_e = (E)v;
+			return true;
+		} else {
+			if(!std::is_floating_point_v<E>) return false;     // a fractional query on an integer tree is not value-preserving
+			char *end = nullptr;
+			double d = strtod(s.c_str(), &end);
+			if(s.empty() || end != s.c_str() + s.size() || !(d >= 0) || (double)(float)d != d) return false;
+			*out = (Q)d; *as_e = (E)(d == 0 ? 0.0 : d);
+			return true;
+		}
+	}
+	template<class QL, class QU>
+	static bool typed_query2(IT &it, Node *pool, int P, const std::string &kind, const std::string &a, const std::string &b, bool one_arg, bool dirty) {
+		QL ql; QU qu; E lb, ub;
+		if(!conv<QL>(a, &ql, &lb) || !conv<QU>(b, &qu, &ub)) return false;
+		std::vector<int> got = query(it, pool, P, ql, qu, lb, ub, one_arg, dirty);
+		if(vh::g_oracle_count > 0) return true;
+		std::vector<int> ref = query(it, pool, P, lb, ub, lb, ub, one_arg, dirty, true);
+		if(got != ref) {
+			std::string x, y;
+			for(int i : got) x += " " + std::to_string(i);
+			for(int i : ref) y += " " + std::to_string(i);
+			vh::oracle("iv-qtype", "query [%s,%s] passed with argument type %s reports [%s ], the same query passed as the endpoint type %s reports [%s ]",
+				S(lb).c_str(), S(ub).c_str(), kind.c_str(), x.substr(0, 200).c_str(), C::name(), y.substr(0, 200).c_str());
+		}
+		return true;
+	}
+	static bool typed_query(IT &it, Node *pool, int P, const std::string &kind, const std::string &a, const std::string &b, bool one_arg, bool dirty) {
+		if(kind == "u32") return typed_query2<unsigned, unsigned>(it, pool, P, kind, a, b, one_arg, dirty);
+		if(kind == "usz") return typed_query2<size_t, size_t>(it, pool, P, kind, a, b, one_arg, dirty);
+		if(kind == "i16") return typed_query2<short, short>(it, pool, P, kind, a, b, one_arg, dirty);
+		if(kind == "i32") return typed_query2<int, int>(it, pool, P, kind, a, b, one_arg, dirty);
+		if(kind == "f32") return typed_query2<float, float>(it, pool, P, kind, a, b, one_arg, dirty);
+		if(kind == "mix" && !one_arg) return typed_query2<size_t, int>(it, pool, P, kind, a, b, one_arg, dirty);
+		return false;
 	}
 
 	static void run_tree(const vh::Lines &ls, int P, bool hashmode, int every) {
@@ -269,8 +334,15 @@ template<class E> struct Har {
 			} else if((o == "q" && t.size() == 3) || (o == "p" && t.size() == 2)) {
 				E lb = C::parse(t[1]), ub = o == "q" ? C::parse(t[2]) : lb;
 				if(!C::valid(lb) || !C::valid(ub)) { emit("skip"); continue; }
-				try { query(it, pool.get(), P, lb, ub, o == "p", dirty); }
+				try { query(it, pool.get(), P, lb, ub, lb, ub, o == "p", dirty); }
 				catch(vh::AssertStop &a) { vh::oracle("iv-assert", "FRG_ASSERT fired in for_overlaps: %s", a.where.c_str()); throw; }
+				if(vh::g_oracle_count > 0) { emit("stopped"); return; }
+				continue;
+			} else if((o == "qt" && t.size() == 4) || (o == "pt" && t.size() == 3)) {
+				bool ok;
+				try { ok = typed_query(it, pool.get(), P, t[1], t[2], o == "qt" ? t[3] : t[2], o == "pt", dirty); }
+				catch(vh::AssertStop &a) { vh::oracle("iv-assert", "FRG_ASSERT fired in for_overlaps: %s", a.where.c_str()); throw; }
+				if(!ok) { emit("skip"); continue; }
 				if(vh::g_oracle_count > 0) { emit("stopped"); return; }
 				continue;
 			} else if(o == "w" && t.size() == 3) {
@@ -311,6 +383,14 @@ template<class E> struct Har {
 		vh::Lines qs;
 		for(int lb = 0; lb <= u; lb++) for(int ub = lb; ub <= u; ub++) qs.push_back("q " + S(C::from_int(lb)) + " " + S(C::from_int(ub)));
 		for(int p = 0; p <= u; p++) qs.push_back("p " + S(C::from_int(p)));
+		// typed instantiations: every query with non-negative bounds again with arguments of another arithmetic type
+		if(std::string(C::name()) != "u64") {
+			static const char *ikinds[] = {"u32", "usz", "i16", "i32"};
+			bool fl = std::is_floating_point_v<E>;
+			for(int lb = 4; lb <= u; lb++) for(int ub = lb; ub <= u; ub++)
+				qs.push_back(std::string("qt ") + (fl ? "f32" : ikinds[(lb + ub) % 4]) + " " + S(C::from_int(lb)) + " " + S(C::from_int(ub)));
+			for(int p = 4; p <= u; p++) qs.push_back(std::string("pt ") + (fl ? "f32" : ikinds[p % 4]) + " " + S(C::from_int(p)));
+		}
 		ls.insert(ls.end(), qs.begin(), qs.end());
 		if(n >= 2) {
 			int mx = 0;
@@ -360,6 +440,7 @@ static void body(const vh::Lines &ls) {
 		tv.it_value.tv_sec = 3000; setitimer(ITIMER_PROF, &tv, nullptr);
 		if(ty == "f64") Har<double>::run_enum(n, u, sh, nsh);
 		else if(ty == "i64") Har<int64_t>::run_enum(n, u, sh, nsh);
+		else if(ty == "i32") Har<int32_t>::run_enum(n, u, sh, nsh);
 		else Har<uint64_t>::run_enum(n, u, sh, nsh);
 		return;
 	}
@@ -370,6 +451,7 @@ static void body(const vh::Lines &ls) {
 	if(P < 1 || P > 200000) { printf("badcfg\n"); return; }
 	if(ty == "f64") Har<double>::run_tree(ls, P, t[2] == "hash", every);
 	else if(ty == "i64") Har<int64_t>::run_tree(ls, P, t[2] == "hash", every);
+	else if(ty == "i32") Har<int32_t>::run_tree(ls, P, t[2] == "hash", every);
 	else if(ty == "u64") Har<uint64_t>::run_tree(ls, P, t[2] == "hash", every);
 	else printf("badcfg\n");
 }
